@@ -47,6 +47,9 @@ CHECKS = {
  "C12": ("other", "Constants and structure of the payload cutter and agreement of its consumers: the 0xFF run is counted from the end, byte-exact, error iff longer than 15; the format probe inspects bytes 10..16 for all-zero (6 bytes) giving 16-byte slots, else 10-byte words; the padding is cut iff longer than 9 with length len-padding; chunk sizes 16/10 are the chunks_exact arguments per format arm; preprocess_payload runs padding check, probe, chunking in order on the same payload; each of the 3 consumers takes [..10] of every chunk and applies no skipping/reordering iterator adaptor; on the padding error exactly one Error is sent at the RDH offset, the FSM is reset on every normal path and no word is checked. Does not decide payloads whose layout disagrees with the header's data format.",
          "Trusted: rustc nightly front end, /verif/driver, fpv; oracles/payload_cut.json.",
          "THIR/MIR constant-in-role extraction + adaptor who-may-call + path rules on the error arm", "DESIGN.md §3 C12"),
+ "C20": ("other", "Key-to-check table and period formula, decided on the typed syntax tree with accessors inlined: each of the five custom keys is consumed at exactly one place by an `observed != configured` test under `if let Some(key)` whose branch carries the documented code (cdps/E9001, triggers_pht/E9002, chip_count_ob/E9004 on non-inner layers, chip_orders_ob/E9005 only when the count check passed and on the unmodified arrival-order id list, rdh_version as the RDH0 header-id reference); the Cfg accessors return None unless a checks file was given and otherwise the same-named field, all fields are Options with derived Default/PartialEq, custom_checks_enabled is `!= default`, forwarding impls forward to the same method and the accessors have no other consumers; the detected trigger period has the linear normal form cur - prev (+3564 iff cur < prev), Ok iff equal to P, computed from the 12-bit trigger_bc of the current TDH and of the last TDH with the internal-trigger bit, only when the current TDH has the bit and a period is configured, only on the TDH/TDH_after_packet_done arms under running checks after the word was stored, and the reference is written only by TdhBuffer::replace under the bit test. Does not decide TOML parsing or arithmetic outside the 0..3563 BC range.",
+         "Trusted: rustc nightly front end, /verif/driver, fpv.thir evaluator and the linear-form parser in fpv/rules/c20.py.",
+         "THIR predicate normal forms + linear arithmetic normal form of the period expression + who-may-call tables + MIR borrow scan", "DESIGN.md §3 C20"),
 }
 
 NOT_APPLICABLE = {
